@@ -14,6 +14,7 @@ var cmds = map[string]func([]string) error{
 	"c02worker": props.C02Worker,
 	"c02hex":    props.C02Hex,
 	"c03":       props.C03,
+	"c04wt":     props.C04WT,
 	"c04":       props.C04,
 	"c05":       props.C05,
 	"c14":       props.C14,
